@@ -1,11 +1,15 @@
 (* driver for the extracted string model: same scripts as comp/str/harness.cpp *)
 let n_of_int i = n_of_i64 (Int64.of_int i)
 let int_of_n x = Int64.to_int (i64_of_n x)
+(* buffer contents are lists of ELEMENTS, 2 * sizeof(Char) hex digits each *)
+let width = ref 1
 let unhex (h : String.t) : n list =
   if h = "-" then [] else
-  List.init (String.length h / 2) (fun i -> n_of_int (int_of_string ("0x" ^ String.sub h (2 * i) 2)))
+  let d = 2 * !width in
+  List.init (String.length h / d) (fun i -> n_of_i64 (Int64.of_string ("0x" ^ String.sub h (d * i) d)))
 let hex (l : n list) : String.t =
-  if l = [] then "-" else String.concat "" (List.map (fun b -> Printf.sprintf "%02x" (int_of_n b)) l)
+  if l = [] then "-" else String.concat "" (List.map (fun b -> Printf.sprintf "%0*Lx" (2 * !width) (i64_of_n b)) l)
+let junk () = n_of_i64 (match !width with 1 -> 0xCDL | 2 -> 0xCDCDL | _ -> 0xCDCDCDCDL)
 let nat s = nat_of_int (int_of_string s)
 
 let vexp (tok : String.t) : vexp =
@@ -42,7 +46,7 @@ let parse (l : String.t) : op option =
   | ["sfill"; n; c] -> Some (OSFill (n_of_string n, n_of_string c))
   | ["scopy"; k] -> Some (OSCopy (nat k))
   | ["sassign"; d; s] -> Some (OSAssign (nat d, nat s))
-  | ["sresize"; k; n] -> Some (OSResize (nat k, n_of_string n, n_of_int 0xCD))
+  | ["sresize"; k; n] -> Some (OSResize (nat k, n_of_string n, junk ()))
   | ["splusv"; k; a] -> Some (OSPlusV (nat k, vexp a))
   | ["splusc"; k; c] -> Some (OSPlusC (nat k, n_of_string c))
   | ["sappv"; k; a] -> Some (OSAppV (nat k, vexp a))
@@ -85,7 +89,13 @@ let show_err = function
   | Ok _ -> "ok"
 
 let body lines =
-  let w = ref world0 in
+  let (ct, lines) = (match lines with
+    | l :: r when (match words l with ["char"; _] -> true | _ -> false) ->
+      ((match List.nth (words l) 1 with
+        | "2" -> width := 2; char16_t | "4" -> width := 4; char32_t | "w" -> width := 4; wchar_t
+        | _ -> width := 1; char_t), r)
+    | _ -> width := 1; (char_t, lines)) in
+  let w = ref (world0 ct) in
   let stopped = ref false in
   List.iter (fun l ->
     if not !stopped then
